@@ -40,14 +40,14 @@ from ZODB.POSException import InvalidObjectReference, POSKeyError  # noqa: E402
 from ZODB.serialize import get_refs, referencesf  # noqa: E402
 
 import c14_classes  # noqa: E402
-from c14_classes import Gone, GoneNA, Node, NodeNA, PlainGone  # noqa: E402
+from c14_classes import Gone, GoneNA, Node, NodeNA, NodeNASub, PlainGone  # noqa: E402
 
 Z64 = b'\0' * 8
 TMPBASE = [None]                          # scratch directory of the run (ck.tmp)
 DBNAMES = ['d0', 'd1', 'dx']            # d0, d1: members of the multi-database; dx: a stranger
-KINDS = {'N': Node, 'A': NodeNA, 'M': PersistentMapping, 'L': PersistentList, 'G': Gone, 'H': GoneNA}
+KINDS = {'N': Node, 'A': NodeNA, 'B': NodeNASub, 'M': PersistentMapping, 'L': PersistentList, 'G': Gone, 'H': GoneNA}
 CLSID = {('persistent.mapping', 'PersistentMapping'): 1, ('persistent.list', 'PersistentList'): 2,
-         ('c14_classes', 'Node'): 3, ('c14_classes', 'NodeNA'): 4,
+         ('c14_classes', 'Node'): 3, ('c14_classes', 'NodeNA'): 4, ('c14_classes', 'NodeNASub'): 5,
          ('c14_gone', 'Gone'): 6, ('c14_gone', 'GoneNA'): 7}
 GONE_IDS = [6, 7]
 MEMO = 'a1'                               # a plain container met a second time (pickle memo)
@@ -592,6 +592,9 @@ class Session:
                 o._p_changed = True
                 tm2.commit()
                 self.count('rewrite-missing')
+            except Exception as e:
+                self.violation('C14:missing-class-rewrite', 'loading the record of %s while classes are missing and '
+                               'storing it again unchanged raised %r' % (mine._p_oid.hex(), e))
             finally:
                 tm2.abort()
                 c14_classes.show_gone()
@@ -1171,21 +1174,9 @@ class Session:
                 out.append('%d=%d/%s' % (num[k], cls_, ' '.join(line)))
             return out
 
-        src = self.dbs[0].open(transaction_manager=self.ltm)
-        db2 = ZODB.DB(MappingStorage('import'))
-        try:
-            with tempfile.TemporaryFile() as f:
-                src.exportFile(root_key[1], f)
-                f.seek(0)
-                tm2 = transaction.TransactionManager()
-                c2 = db2.open(transaction_manager=tm2)
-                obj = c2.importFile(f)
-                c2.root()['imported'] = obj
-                tm2.commit()
-                start = obj._p_oid
-                c2.close()
+        def canon_loaded(db, start):
             tm3 = transaction.TransactionManager()
-            c3 = db2.open(transaction_manager=tm3)
+            c3 = db.open(transaction_manager=tm3)
             c3.cacheMinimize()
             num, order, out = {start: 0}, [start], []
             i = 0
@@ -1209,15 +1200,54 @@ class Session:
             finally:
                 tm3.abort()
                 c3.close()
+            return out
+
+        src = self.dbs[0].open(transaction_manager=self.ltm)
+        db2 = ZODB.DB(MappingStorage('import'))
+        db3 = ZODB.DB(MappingStorage('import2'))
+        try:
             want = canon_expected()
+            with tempfile.TemporaryFile() as f, tempfile.TemporaryFile() as f2:
+                src.exportFile(root_key[1], f)
+                f.seek(0)
+                tm2 = transaction.TransactionManager()
+                c2 = db2.open(transaction_manager=tm2)
+                obj = c2.importFile(f)
+                c2.root()['imported'] = obj
+                # the imported objects exist only in this transaction's savepoint so far: exporting them
+                # now must give the same graph
+                c2.exportFile(obj._p_oid, f2)
+                tm2.commit()
+                start = obj._p_oid
+                c2.close()
+                f2.seek(0)
+                tm4 = transaction.TransactionManager()
+                c4 = db3.open(transaction_manager=tm4)
+                obj4 = c4.importFile(f2)
+                if obj4 is None:
+                    out4 = ['nothing imported']
+                else:
+                    c4.root()['imported'] = obj4
+                    tm4.commit()
+                    start4 = obj4._p_oid
+                tm4.abort()
+                c4.close()
+                if obj4 is not None:
+                    out4 = canon_loaded(db3, start4)
+            out = canon_loaded(db2, start)
             if out != want:
                 self.violation('C14:import', 'the graph exported from %s and imported into another database is %s; '
                                'the stored graph is %s' % (root_key[1].hex(), ' | '.join(out)[:600],
                                                            ' | '.join(want)[:600]))
+            elif out4 != want:
+                self.violation('C14:export-in-transaction', 'objects imported (written by a savepoint, not yet '
+                               'committed) and exported again in the same transaction give %s; the graph is %s'
+                               % (' | '.join(out4)[:600], ' | '.join(want)[:600]))
         finally:
             self.ltm.abort()
             src.close()
             db2.close()
+            db3.close()
 
     def historical_phase(self):
         """The graph as of an earlier transaction T, loaded through a historical connection
@@ -1469,6 +1499,21 @@ class Oracle:
                                 % (oid.hex(), got_gr, want))
             except Exception as e:
                 s.violation('C14:get_refs', 'get_refs(record of %s) raised %r' % (oid.hex(), e))
+            # a record is exactly two pickles (class meta, state): nothing may follow
+            try:
+                import pickletools
+                pos = 0
+                for _ in range(2):
+                    for op_, arg_, p_ in pickletools.genops(data[pos:]):
+                        last = p_
+                    pos += last + 1
+                if pos != len(data):
+                    tail = data[pos:]
+                    s.violation('C14:embedded', 'the record of %s is %d bytes: class and state pickles end at %d, '
+                                'followed by %r%s' % (oid.hex(), len(data), pos, tail[:60],
+                                                       ' (holds another object\'s sentinel)' if b'S#' in tail else ''))
+            except Exception as e:
+                s.violation('C14:embedded', 'record of %s is not two pickles: %r' % (oid.hex(), e))
             # a record contains no other persistent object's state
             try:
                 raw = decode_record(data)[3]
@@ -1620,7 +1665,7 @@ def gen_case(rng, thorough=False):
         for _ in range(k):
             name = 'n%d' % counter[0]
             counter[0] += 1
-            kind = rng.choice('NNNNAAAMMLGH')
+            kind = rng.choice('NNNNAABMMLGH')
             ops.append(['new', name, kind])
             names.append(name)
             kinds[name] = kind
@@ -1637,7 +1682,7 @@ def gen_case(rng, thorough=False):
             # (only to objects referenced with their class: a constructor argument that needs its own
             # object to exist first cannot be loaded by any implementation)
             plain = [m for m in allnames if kinds[m] in 'NMLG']
-            if kinds[n] in 'AH' and plain and rng.random() < 0.25:
+            if kinds[n] in 'ABH' and plain and rng.random() < 0.25:
                 ops.append(['args', n, [gen_value(rng, plain, 1, 0.0) for _ in range(rng.choice([1, 2]))]])
         # links
         for _ in range(rng.choice([1, 2, 3, 4, 6, 8]) + (rng.randrange(5, 20) if big else 0)):
